@@ -80,6 +80,43 @@ theorem C39_added_iff_bytes (P : Prims) (b : Block) (sr : Hash) (l : Ledger) :
     · intro _; exact h2
     · intro _; rw [addBlockBytes, h1]
 
+/-! ### the other outcome: an added block leaves exactly the specified ledger -/
+
+/-- **Post-state of acceptance** (syncing path): an acceptable block is added and the resulting ledger IS `addedLedger` — the three
+stores get exactly the batches `blockBatch` / `stateBatch` / `eventBatch` on top (header record with the transaction hashes, hash by
+height, current block, every transaction with its height, bloom; state root and both merkle accumulators, the executed write set;
+event records), the in-memory height, current hash, header index, both accumulators are advanced and the block's header leaves the
+header cache.  With `C39_reject_noop` and `C39_added_iff` this characterises both outcomes of `AddBlock` completely. -/
+theorem C39_added_state (P : Prims) (b : Block) (sr : Hash) (l : Ledger) (a : Acceptable P l b sr) :
+    ∃ ws st, execRes P l b = some (ws, st) ∧ addBlock P b sr l = (.added, addedLedger P b l ws st) := by
+  obtain ⟨ws, st, he, _⟩ := a.exec
+  refine ⟨ws, st, he, ?_⟩
+  rcases run_guardsFirst _ (addBlock_guardsFirst P b sr) l with ⟨h1, _, _⟩ | ⟨h1, _⟩
+  · exact absurd ((C39_added_iff P b sr l).mpr a) h1
+  · rw [addBlock, h1, addBlock_effects P b sr l ws st he]
+
+/-- the same ledger results on the consensus path (`ExecuteBlock` + `SubmitBlock`) -/
+theorem C39_added_state_submit (P : Prims) (b : Block) (l : Ledger) (ws : Hash) (st : St) (he : execRes P l b = some (ws, st))
+    (h : (submitBlock P b l).1 = .added) : submitBlock P b l = (.added, addedLedger P b l ws st) := by
+  rcases run_guardsFirst _ (submitBlock_guardsFirst P b) l with ⟨h1, _, _⟩ | ⟨h1, _⟩
+  · exact absurd h h1
+  · rw [submitBlock, h1, submitBlock_effects P b l ws st he]
+
+/-- what the queries see afterwards: the block is the tip, is found by hash and by height, the state is the executed state and
+both accumulators have one more leaf -/
+theorem C39_added_reads (P : Prims) (b : Block) (sr : Hash) (l : Ledger) (a : Acceptable P l b sr) :
+    ∃ ws st, execRes P l b = some (ws, st) ∧
+      let l' := (addBlock P b sr l).2
+      l'.mem.curHeight = b.hdr.u.height ∧ l'.mem.curHash = P.hdrHash b.hdr.u
+        ∧ lookupHeader l' (P.hdrHash b.hdr.u) = some b.hdr
+        ∧ findBlockHash b.hdr.u.height l'.disk.block = some (P.hdrHash b.hdr.u)
+        ∧ curState l'.disk.state = st
+        ∧ l'.mem.blockLeaves = l.mem.blockLeaves ++ [b.hdr.u.txRoot] ∧ l'.mem.deltaLeaves = l.mem.deltaLeaves ++ [ws] := by
+  obtain ⟨ws, st, he, e⟩ := C39_added_state P b sr l a
+  refine ⟨ws, st, he, ?_⟩
+  rw [e]
+  exact addedLedger_reads P b l ws st
+
 /-! ### per-field: a wrong field ⇒ not added and nothing changed -/
 
 private theorem untouched_of_not_acceptable {P b sr l} (h : ¬ Acceptable P l b sr) : Untouched (addBlock P b sr l) l := by
@@ -210,7 +247,7 @@ theorem C39_signatures_checked_submit (P : Prims) (b : Block) (l : Ledger)
     (h : verifyMulti P (P.hdrHash b.hdr.u) b.hdr.keys (OntVerif.Gen.Quorum.ledgerStore_m b.hdr.keys.length) b.hdr.sigs ≠ none) :
     Untouched (submitBlock P b l) l :=
   submit_untouched_of_failing_step
-    ⟨.guard "verifyHeader: VerifyMultiSignature"
+    ⟨.guard "VerifyMultiSignature"
         (fun _ => verifyMulti P (P.hdrHash b.hdr.u) b.hdr.keys (OntVerif.Gen.Quorum.ledgerStore_m b.hdr.keys.length) b.hdr.sigs),
       by simp [submitBlockSteps, verifyHeaderSteps],
       by
@@ -310,6 +347,46 @@ theorem C39_source_guard_order (P : Prims) (b : Block) (sr : Hash) :
   refine ⟨?_, by decide, by decide, by decide, ?_⟩
   · rw [e1, e2, e3]; rfl
   · rw [e4]; rfl
+/-- the write texts of an event list -/
+def writeTexts (evs : List (String × String)) : List String := (evs.filter (fun e => e.1 = "write")).map (·.2)
+
+def effectSites (ss : List Step) : List String := (ss.filter Step.isEffect).map Step.site
+
+/-- `submitBlock`'s writes with its three helpers inlined, minus the calls that are no-ops under the model's assumptions
+(pruning disabled, `ccMsg = nil`, no cross-chain states) -/
+def sourceWriteOrder : List String :=
+  ((writeTexts submitBlock).flatMap fun w =>
+      if w = "this.saveBlockToBlockStore" then writeTexts saveBlockToBlockStore
+      else if w = "this.saveBlockToStateStore" then writeTexts saveBlockToStateStore
+      else if w = "this.saveBlockToEventStore" then writeTexts saveBlockToEventStore
+      else [w]).filter
+    fun w => w ≠ "this.tryPruneBlock" ∧ w ≠ "this.crossChainStore.SaveMsgToCrossChainStore" ∧ w ≠ "this.stateStore.SaveCrossStates"
+
+/-- **order inside the helpers**: the model's effects of `submitBlock` are, one for one and in the same order, the store-writing /
+memory-mutating calls of `submitBlock` → `saveBlockToBlockStore` → `saveBlockToStateStore` → `saveBlockToEventStore` → three
+`CommitTo` → `setCurrentBlock` as they stand in the source; and the model's checks inside `verifyHeader` are the source's checks of
+the non-VBFT path in source order (after the `Height == 0` shortcut and the store-error guard, which the model does not have). -/
+theorem C39_source_inner_order (P : Prims) (b : Block) :
+    effectSites (submitSteps P b) = sourceWriteOrder
+    ∧ notEffectSites (verifyHeaderSteps P b.hdr) = (guardTexts verifyHeaderSolo).drop 2
+    ∧ (guardTexts verifyHeaderSolo).take 2 = ["header.Height == 0", "err != nil && err != scom.ErrNotFound"]
+    ∧ validationsFirst saveBlockToBlockStore = true ∧ validationsFirst saveBlockToStateStore = true
+    ∧ validationsFirst saveBlockToEventStore = true
+    ∧ writeTexts addHeader = effectSites (addHeaderSteps P b.hdr)
+    ∧ (writeTexts addBlock).drop 1 = ["this.delHeaderCache"] := by
+  have e1 : sourceWriteOrder = ["this.blockStore.NewBatch", "this.stateStore.NewBatch", "this.eventStore.NewBatch", "this.setHeaderIndex",
+      "this.blockStore.SaveCurrentBlock", "this.blockStore.SaveBlockHash", "this.blockStore.SaveBlock", "this.blockStore.SaveBloomData",
+      "SaveNotify", "this.stateStore.AddStateMerkleTreeRoot", "this.stateStore.AddBlockMerkleTreeRoot", "this.stateStore.SaveCurrentBlock",
+      "result.WriteSet.ForEach", "this.eventStore.SaveEventNotifyByBlock", "this.eventStore.SaveCurrentBlock", "this.blockStore.CommitTo",
+      "this.eventStore.CommitTo", "this.stateStore.CommitTo", "this.setCurrentBlock"] := by decide
+  have e2 : (guardTexts verifyHeaderSolo).drop 2 = ["prevHeader == nil", "prevHeader.Height+1 != header.Height",
+      "prevHeader.Timestamp >= header.Timestamp", "AddressFromBookkeepers", "prevHeader.NextBookkeeper != address", "VerifyMultiSignature"] := by
+    decide
+  have e3 : writeTexts addHeader = ["this.addHeaderCache", "this.setHeaderIndex"] := by decide
+  refine ⟨?_, ?_, by decide, by decide, by decide, by decide, ?_, by decide⟩
+  · rw [e1]; rfl
+  · rw [e2]; rfl
+  · rw [e3]; rfl
 end source
 
 /-! ### Non-vacuity: concrete chain, valid block added, each mutated field refused -/
